@@ -999,7 +999,7 @@ fn socket_case(g: &Gen, r: &mut Rng, run: &mut Run, rt: &tokio::runtime::Runtime
                                           CriticalWindow::new(), SubscriptionHub::new())
     };
     let mut stream = None;
-    for _ in 0..400 {
+    for _ in 0..2000 {
         if let Ok(st) = std::os::unix::net::UnixStream::connect(&path) { stream = Some(st); break; }
         std::thread::sleep(Duration::from_millis(5));
     }
@@ -1028,14 +1028,18 @@ fn socket_case(g: &Gen, r: &mut Rng, run: &mut Run, rt: &tokio::runtime::Runtime
             let have = buf.iter().filter(|b| **b == b'\n').count();
             // all expected answers are in and the line has been quiet for a moment, or the server stays silent
             if have >= want.len() && quiet_since.elapsed() > Duration::from_millis(60) { break; }
-            if quiet_since.elapsed() > Duration::from_millis(1500) || t0.elapsed() > Duration::from_secs(10) { break; }
+            if quiet_since.elapsed() > Duration::from_millis(4000) || t0.elapsed() > Duration::from_secs(20) { break; }
         }
         for line in String::from_utf8_lossy(&buf).split('\n') {
             if line.trim().is_empty() { continue; }
             if let Some(j) = resp_tree(Some(line.to_string())) { got.push(j); }
         }
     } else {
-        run.note("control socket never came up".into());
+        // a loaded machine may not schedule the listener task in time: no observation, no verdict
+        run.note("control socket never came up; case skipped".into());
+        task.abort();
+        let _ = std::fs::remove_file(&path);
+        return None;
     }
     task.abort();
     let _ = std::fs::remove_file(&path);
